@@ -64,6 +64,8 @@ def gen_world(rng, i, tier):
     # the target of the write may already exist (an older, longer version of the file)
     w["preexisting"] = rng.pick([None, None, "long", "garbage"])
     # the directory argument of the write: plain, with a trailing slash, or a symbolic link to the directory
+    w["sibling"] = rng.pick([None, None, None, ".tmp", "~", ".new", ".bak", ".lock"])
+    w["w2name"] = rng.pick(["w2.conf", "w2.conf", "w2.conf", "n" * 250 + ".conf", "n" * 247 + ".conf"])     # names up to NAME_MAX
     w["outdir"] = rng.pick(["$ROOT/out", "$ROOT/out", "$ROOT/out/", "$ROOT/outlink", "$ROOT/outlink/", "$ROOT/./out//"])
     if src == "built":
         w["ctor"] = rng.pick(["newKeyFile", "newIniFile", "newOpts"])
@@ -136,13 +138,23 @@ def build_plans(world):
         d, c = world["d2"], world["c2"]
     ops.append({"op": "setTags", "k": 0, "delim": ord(d), "comment": ord(c)})
     ops.append({"op": "dump", "k": 0, "ext": True, "tag": "before"})
+    # a sibling in the same directory whose name EXTENDS the names written below (w2.conf.tmp, w2.conf~, w2.conf.new):
+    # written first, read back last - the writes in between are none of its business
+    sib = world.get("sibling")
+    if sib:
+        ops.append({"op": "write", "k": 0, "dir": od, "name": "w2.conf" + sib, "tag": "write_sib"})
     ops.append({"op": "write", "k": 0, "dir": od, "name": "w.conf", "readback": True, "tag": "write"})
     ops.append({"op": "readFile", "o": 1, "path": "$ROOT/out/w.conf", "delim": d, "comment": c, "tag": "reread"})
     ops.append({"op": "dump", "k": 1, "ext": True, "tag": "after"})
     # the object is not used up by a write: a second file written from it must read back identically, too
-    ops.append({"op": "write", "k": 0, "dir": od, "name": "w2.conf", "readback": True, "tag": "write2"})
-    ops.append({"op": "readFile", "o": 2, "path": "$ROOT/out/w2.conf", "delim": d, "comment": c, "tag": "reread2"})
+    w2 = world.get("w2name", "w2.conf") if not sib else "w2.conf"
+    ops.append({"op": "write", "k": 0, "dir": od, "name": w2, "readback": True, "tag": "write2"})
+    ops.append({"op": "readFile", "o": 2, "path": "$ROOT/out/" + w2, "delim": d, "comment": c, "tag": "reread2"})
     ops.append({"op": "dump", "k": 2, "ext": True, "tag": "after2"})
+    if sib:
+        ops.append({"op": "readFile", "o": 3, "path": "$ROOT/out/w2.conf" + sib, "delim": d, "comment": c, "tag": "reread_sib"})
+        ops.append({"op": "dump", "k": 3, "ext": True, "tag": "after_sib"})
+        ops.append({"op": "free", "k": 3})
     ops.append({"op": "free", "k": 0})
     ops.append({"op": "free", "k": 1})
     ops.append({"op": "free", "k": 2})
@@ -198,6 +210,13 @@ def check(world, plans, results):
         v.fail("second-write", "second write of the same object / its read-back failed: %r / %r" % (w2["rc"], rr2["rc"]))
     elif view(tagged(plan, res, "after2")) != after:
         v.fail("second-write", "a second file written from the same object reads back differently from the first: bytes %r vs %r" % (wr.get("bytes", "")[:200], w2.get("bytes", "")[:200]))
+    if world.get("sibling"):
+        ws, rs_ = tagged(plan, res, "write_sib"), tagged(plan, res, "reread_sib")
+        if ws["rc"] != 0 or rs_["rc"] != 0:
+            v.fail("sibling", "the file written first under the name w2.conf%s cannot be read back after the other writes: write %r, read %r" % (world["sibling"], ws["rc"], rs_["rc"]))
+        elif view(tagged(plan, res, "after_sib")) != after:
+            v.fail("sibling", "the file written first under the name w2.conf%s reads back differently after the other writes" % world["sibling"])
+        v.probe("sibling_file_whose_name_extends_the_target")
     if set(before) != set(after):
         v.fail("sections", "key-bearing sections differ: before %r after %r; written: %r" % (sorted(map(str, before)), sorted(map(str, after)), wr.get("bytes", "")[:300]))
     else:
